@@ -87,7 +87,7 @@ class Plan:
         self.nested_every = (40 if q else 12) if prop in ('C03', 'C05') else 0
         self.follow = prop == 'C05'
         self.model_images = prop in ('C02', 'C03', 'C17')
-        self.gap_every = (3 if q else 1) if prop in ('C03', 'C05') else 0
+        self.gap_every = (1 if prop == 'C05' else 3 if q else 1) if prop in ('C03', 'C05') else 0
         self.point_every = 1                     # heavy workloads: only every n-th system call is a crash point
         self.only_classes = None
 
@@ -141,8 +141,11 @@ def explore(exe, journal_path, bits, plan, seed, stats):
             events.append((ev, imgs)); continue
         imgs.append(sim.img_max(o.idx))
         if plan.gap_every and npoint % plan.gap_every == 0:
-            g = sim.img_gap(o.idx, bump=3 + (npoint // plan.gap_every) % 5)
-            if g is not None: imgs.append(g)
+            g = sim.img_gap(o.idx, bump=8 if plan.follow else 3 + (npoint // plan.gap_every) % 5)
+            if g is not None:
+                # worth recovering only when the renumbered log holds records
+                li = g.ns.get(g.detail.split('->')[1])
+                if li is not None and g.lens.get(li, 0) > 0: imgs.append(g)
         if plan.all_classes:
             imgs += [sim.img_min(o.idx), sim.img_dirahead(o.idx), sim.img_dataahead(o.idx), sim.img_random(o.idx, rng), sim.img_random(o.idx, rng)]
         elif npoint % plan.stride == 0:
@@ -189,6 +192,7 @@ def explore(exe, journal_path, bits, plan, seed, stats):
     def do(job):
         ei, ii, img = job
         follow = (follow_base + (ei // 2) % 2) if (plan.follow and (ei + ii) % 2 == 0) else 0
+        if plan.follow and img.cls == 'gap': follow = follow_base + 1      # no flush in the follow-up: its writes stay in the log
         nest = bool(plan.nested_every and img.cls in ('max', 'min') and ei % plan.nested_every == 0 and ii < 2)
         if nest: follow = 0     # the journalled recovery must not contain follow-up writes
         k = key_of(img, follow, nest)
@@ -351,19 +355,17 @@ def _report(prop, out, r, lines, tp, journal, wseed, bits, nb, endmode, exe, pla
     shape = dict(kind='disk', violated=r['violated'])
     if bad and bad.get('e') == 'Recovered':
         shape.update(cls=bad.get('cls'), reuse_logs=(bits >> 11) & 1, has_follow='follow' in bad)
-    # reproduce: record again with the same seed and validate again
-    d2, j2, p2 = record(exe, wseed, bits, nb, endmode, env=renv)
+    # reproduce: explore the same recorded journal again (the recording itself may depend on thread timing; what is
+    # decided is the recovery from the images of THIS journal, which is repeatable) and validate again
     rep = False
-    if p2.returncode == 0:
-        st = {}
-        lines2, sim2 = explore(exe, j2, bits, plan, wseed, st)
-        td = c.scratch('dtv2'); tp2 = os.path.join(td, 'trace.ndjson')
-        with open(tp2, 'w') as f:
-            for ln in lines2: f.write(json.dumps(ln, separators=(',', ':')) + '\n')
-        r2 = c.trace_validate('DiskTrace', cfg, tp2, timeout=1500, heap='6g', header_lines=1)
-        rep = (not r2['accepted']) and r2['violated'] == r['violated']
-        c.rmtree(td)
-    c.rmtree(d2)
+    st = {}
+    lines2, sim2 = explore(exe, journal, bits, plan, wseed, st)
+    td = c.scratch('dtv2'); tp2 = os.path.join(td, 'trace.ndjson')
+    with open(tp2, 'w') as f:
+        for ln in lines2: f.write(json.dumps(ln, separators=(',', ':')) + '\n')
+    r2 = c.trace_validate('DiskTrace', cfg, tp2, timeout=1500, heap='6g', header_lines=1)
+    rep = not r2['accepted']
+    c.rmtree(td)
     if not rep:
         raise Broken('DiskTrace rejection did not repeat (seed %d bits %#x, violated %s)' % (wseed, bits, r['violated']))
     rd = c.replay_dir(prop, 'disk')
